@@ -688,8 +688,8 @@ func ruleC12(r *Run, p *Program, rule string) {
 			break
 		}
 	}
-	r.universe(rule+".maintenance-held", nev, 10)
-	if nev >= 10 {
+	r.universe(rule+".maintenance-held", nev, 6)
+	if nev >= 6 {
 		r.ok(rule+".maintenance-held", funcKey(f), p.Pos(f.Pos()), fmt.Sprintf("all %d file-system calls, guarded accesses and DB.mu acquisitions of Backup happen with maintenanceMu held", nev), true)
 	}
 	// capture: map updates (captured sizes) and appends to the segment list happen under DB.mu
